@@ -25,6 +25,9 @@ def lanczos_iteration(Afunc, vstart, numiter):
     assert nrmv > 0
     vstart = vstart / nrmv
 
+    # the Krylov subspace cannot have a larger dimension than the vector space
+    numiter = min(numiter, len(vstart))
+
     alpha = np.zeros(numiter)
     beta  = np.zeros(numiter-1)
 
@@ -36,6 +39,10 @@ def lanczos_iteration(Afunc, vstart, numiter):
         alpha[j] = np.vdot(w, V[j]).real
         # not in-place: 'w' may alias data owned by 'Afunc' (or its argument)
         w = w - (alpha[j]*V[j] + (beta[j-1]*V[j-1] if j > 0 else 0))
+        # re-orthogonalize against all previous Lanczos vectors; otherwise rounding errors
+        # are amplified by small beta values, and an (undetected) exhausted Krylov subspace
+        # leads to non-orthogonal vectors and wrong Ritz values and vectors
+        w = w - V[:j+1].T @ (V[:j+1].conj() @ w)
         beta[j] = np.linalg.norm(w)
         if beta[j] < 100*len(vstart)*np.finfo(float).eps:
             warnings.warn(
